@@ -20,18 +20,18 @@ LFInit == /\ lc \in LConfigs /\ ns \in LNSet
 Map(f(_)) == [i \in 1..Len(orb) |-> f(orb[i])]
 StepHalf == /\ pc \in {"half1", "half2"} /\ ok
             /\ orb' = Map(LAMBDA o : [t |-> o.t, r |-> HalfKick(lc, o.t, o.r).r])
-            /\ ok' = HalfKick(lc, orb[1].t, orb[1].r).ok
+            /\ ok' = \A i \in 1..Len(orb) : HalfKick(lc, orb[i].t, orb[i].r).ok      \* exactness of every orbit of the bundle
             /\ pc' = (IF pc = "half1" THEN "drift" ELSE IF pass = 1 THEN "flip" ELSE "end")
             /\ UNCHANGED <<lc, k, pass, t0, r0, z0, ns, pts>>
 StepDrift == /\ pc = "drift" /\ ok
              /\ orb' = Map(LAMBDA o : LET d == Drift(lc, o.t, o.r) IN [t |-> d.t, r |-> [i \in 1..lc.n |-> o.r[i] * d.sg[i]]])
-             /\ ok' = Drift(lc, orb[1].t, orb[1].r).ok
+             /\ ok' = \A i \in 1..Len(orb) : Drift(lc, orb[i].t, orb[i].r).ok
              /\ pts' = (IF pass = 1 THEN Append(pts, orb'[1].t) ELSE pts)
              /\ k' = k - 1 /\ pc' = (IF k = 1 THEN "half2" ELSE "kick")
              /\ UNCHANGED <<lc, pass, t0, r0, z0, ns>>
 StepKick == /\ pc = "kick" /\ ok
             /\ orb' = Map(LAMBDA o : [t |-> o.t, r |-> Kick(lc, o.t, o.r).r])
-            /\ ok' = Kick(lc, orb[1].t, orb[1].r).ok
+            /\ ok' = \A i \in 1..Len(orb) : Kick(lc, orb[i].t, orb[i].r).ok
             /\ pc' = "drift" /\ UNCHANGED <<lc, k, pass, t0, r0, z0, ns, pts>>
 StepFlip == /\ pc = "flip" /\ ok
             /\ orb' = Map(LAMBDA o : [t |-> o.t, r |-> Neg(o.r)])
